@@ -19,7 +19,7 @@ class Finding:
         self.construct = construct    # normalised statement text / parameter name
         self.message = message
         self.file = file
-        self.line = line
+        self.line = line // 100000 if isinstance(line, int) and line >= 100000 else line      # model.LINE_SCALE
         self.severity = severity      # VIOLATION | NOTE
         self.extra = extra or {}
 
